@@ -34,13 +34,14 @@ func main() {
 			"direct and via a harness downstream proxy; offset-stamped streams in both directions at once (early data coalesced with / split around the CONNECT head, " +
 			"target bytes coalesced with the downstream proxy's 200 head, ping-pong messages, bulk 0 B..1 MiB quick / 8 MiB thorough with PRNG chunking and pauses); " +
 			"one end closes (full or half close) before/during/after the peer's stream; on TCP also abortive closes (SO_LINGER 0, close with unread input) while the peer sits idle; " +
+			"uploads to an end that half-closed first and reads slowly; a client that half-closes right behind the CONNECT head; long-lived tunnels that fall silent for 12 s (quick) / 35 s (thorough) and then talk again; " +
 			"and a swarm family: 4-16 concurrent tunnels x 3-5 rounds through one proxy and one downstream proxy whose targets speak first in the same write as the 200 head, optional PRNG-delayed response modifier. A class is route x transport x early-data bucket x observed split x " +
 			"who closed first x close mode x observed close timing x size bucket, tallied only after the oracle ran on the case; plus unreachable-target classes",
 		Assumptions: []string{
 			"liveness clauses (bytes delivered while the tunnel is open, EOF propagation, release) are decided by quiescence of all martian goroutines with the proxy timeout at 10 min; per process only the first stuck wait of a signature uses the full window (5 s grace + 6 samples), later ones of the same signature shorter windows (4 samples/0.6 s, then 3 samples/0.1 s) and are only counted; a replay of a single case always uses the full window",
 			"an end that closes while the peer is still streaming uses half-close on TCP (a full close with unread data is a TCP reset, after which delivery of its own bytes is not guaranteed by TCP itself); full close at any time is exercised on the in-memory transport",
 			"after an abortive close (reset) the peer must observe end-of-stream as EOF or reset and both connections must be released; completeness of the bytes sent before the close is demanded for orderly closes only",
-			"bytes the peer sends after an end's half-close are only checked to be an in-order prefix; their complete delivery is recorded, not demanded",
+			"an end that half-closed keeps reading: once the peer has finished sending and closed in an orderly way it must have received all of the peer's bytes at its end-of-stream (both harness transports can half-close); after a full close by the first closer the peer's later bytes are only checked to be an in-order prefix",
 			"a downstream proxy answering 502 itself is not exercised (the statement's 502+Warning clause is checked for targets / downstream proxies that cannot be dialled)",
 		},
 		RaceFiles: []string{"proxy.go"},
@@ -58,6 +59,10 @@ func main() {
 			}
 			for i := 0; i < nr; i++ {
 				bs = append(bs, vh.Batch{Name: fmt.Sprintf("race-%d", i), Race: true, TimeoutS: 1500})
+			}
+			// long-lived tunnels: one batch per (transport, route); the idle time is a lower bound
+			for i := 0; i < 3; i++ {
+				bs = append(bs, vh.Batch{Name: fmt.Sprintf("aged-%d", i), TimeoutS: 1500})
 			}
 			return bs
 		},
@@ -81,10 +86,11 @@ type tcase struct {
 	PingPong    int    `json:"pingpong"`
 	CSize       int    `json:"csize"`
 	TSize       int    `json:"tsize"`
-	Closer      string `json:"closer"`               // client | target
-	CloseMode   string `json:"close_mode"`           // full | half | linger0 (abortive: SO_LINGER 0) | unread (close with unread input => reset)
-	StopAfter   int    `json:"stop_after,omitempty"` // unread: the closer stops reading after this many stream bytes
-	CloseAt     string `json:"close_at"`             // before | during | after
+	Closer      string `json:"closer"`                // client | target
+	CloseMode   string `json:"close_mode"`            // full | half | linger0 (abortive: SO_LINGER 0) | unread (close with unread input => reset)
+	SlowReader  bool   `json:"slow_reader,omitempty"` // the closer, once half-closed, keeps reading slowly
+	StopAfter   int    `json:"stop_after,omitempty"`  // unread: the closer stops reading after this many stream bytes
+	CloseAt     string `json:"close_at"`              // before | during | after | with-head (client half-closes right behind the CONNECT head, before the 200)
 	PipeCap     int    `json:"pipe_cap"`
 	Seg         string `json:"seg"`   // proxy-side read segmentation: none | small | mixed
 	Chunk       string `json:"chunk"` // write profile: tiny | small | mixed | large
@@ -246,6 +252,54 @@ func genAbort(r *vh.Run, stream string, g int, race bool) tcase {
 	return c
 }
 
+// genHalfUpload: one end half-closes first and keeps reading slowly through a
+// small receive buffer; the peer then uploads a long stream and closes.
+func genHalfUpload(r *vh.Run, stream string, g int, transport string, race bool) tcase {
+	rng := r.Rng(stream, g)
+	c := tcase{Kind: "tunnel", Stream: stream, Idx: g, Transport: transport, Race: race, CloseMode: "half", SlowReader: true, Split: "one", Seg: "none", PipeCap: 65536}
+	c.Route = []string{"direct", "downstream"}[g%2]
+	c.Closer = []string{"target", "client"}[(g/2)%2]
+	c.CloseAt = []string{"before", "during"}[(g/4)%2]
+	c.Chunk = []string{"mixed", "large"}[rng.Intn(2)]
+	c.DSHead = "HTTP/1.1 200 Connection established\r\n\r\n"
+	max := 1 << 20
+	if r.Thorough() && !race {
+		max = 6 << 20
+	}
+	up := 200000 + rng.Intn(max-200000)
+	small := rng.Intn(3000)
+	if c.Closer == "target" {
+		c.TSize, c.CSize = small, up
+	} else {
+		c.CSize, c.TSize = small, up
+	}
+	if rng.Intn(3) == 0 {
+		c.Early = 1 + rng.Intn(1000)
+	}
+	return c
+}
+
+// genEarlyHalf: the client half-closes right behind the CONNECT head (its
+// stream is the early data, possibly empty) and then reads the 200 and the
+// target's whole stream.
+func genEarlyHalf(r *vh.Run, stream string, g int, transport string, race bool) tcase {
+	rng := r.Rng(stream, g)
+	c := tcase{Kind: "tunnel", Stream: stream, Idx: g, Transport: transport, Race: race, Closer: "client", CloseMode: "half", CloseAt: "with-head", PipeCap: 65536}
+	c.Route = []string{"direct", "downstream"}[g%2]
+	if (g/2)%2 == 1 {
+		c.Early = 1 + rng.Intn(3000)
+	}
+	c.Split = []string{"one", "one", "headers", "crlf"}[rng.Intn(4)]
+	c.Seg = []string{"none", "small", "mixed"}[rng.Intn(3)]
+	c.Chunk = []string{"small", "mixed", "large"}[rng.Intn(3)]
+	c.TSize = []int{0, rng.Intn(3000), rng.Intn(200000)}[rng.Intn(3)]
+	if rng.Intn(2) == 0 {
+		c.TargetFirst = 1 + rng.Intn(2000)
+	}
+	c.DSHead = []string{"HTTP/1.1 200 OK\r\n\r\n", "HTTP/1.1 200 Connection established\r\n\r\n", "HTTP/1.1 200 OK\r\nContent-Length: 0\r\n\r\n"}[rng.Intn(3)]
+	return c
+}
+
 // ---------------------------------------------------------------------------
 // endpoints
 
@@ -273,9 +327,11 @@ type end struct {
 	werr     atomic.Value
 	mis      atomic.Value // *mismatch
 	sendDone int32
+	slow     bool  // read at most 16 KiB at a time and pause after every read
 	stopAt   int64 // >0: the reader stops (without closing) once this many stream bytes were read
 	paused   int32 // reader stopped at stopAt
 	events   *int64
+	sendMu   sync.Mutex
 	closeMu  sync.Mutex
 	closed   bool
 }
@@ -321,6 +377,10 @@ func (e *end) chunkSize(remaining, total int) int {
 // send writes the next n bytes of this end's stamped stream with the case's
 // chunking; it returns the first write error.
 func (e *end) send(n int, single bool) error {
+	// one sender at a time: the stream offset of a write is only known once
+	// the previous write has been accounted for
+	e.sendMu.Lock()
+	defer e.sendMu.Unlock()
 	total := n
 	for n > 0 {
 		k := n
@@ -383,6 +443,9 @@ func classify(got []byte, p int, off int64, id uint32) string {
 // recvLoop reads the peer's stream until EOF/error and compares it with the
 // expected stamped stream.
 func (e *end) recvLoop(maxRead int) {
+	if e.slow {
+		maxRead = 16384 // slow means pauses between reads, not tiny reads
+	}
 	buf := make([]byte, maxRead)
 	exp := make([]byte, maxRead)
 	var pend []byte // received bytes from the first divergence on
@@ -403,6 +466,9 @@ func (e *end) recvLoop(maxRead int) {
 		k := maxRead
 		if e.rrng.Intn(4) == 0 {
 			k = 1 + e.rrng.Intn(maxRead)
+		}
+		if e.slow && k > 16384 {
+			k = 16384
 		}
 		if e.stopAt > 0 {
 			left := e.stopAt - atomic.LoadInt64(&e.recv)
@@ -450,11 +516,17 @@ func (e *end) recvLoop(maxRead int) {
 			atomic.AddInt64(e.events, 1)
 			return
 		}
-		if e.rrng.Intn(60) == 0 {
+		if e.slow {
+			time.Sleep(300 * time.Microsecond)
+		} else if e.rrng.Intn(60) == 0 {
 			time.Sleep(time.Duration(e.rrng.Intn(2000)) * time.Microsecond)
 		}
 	}
 }
+
+// makeSlow turns e into a slow reader (the socket buffers are left alone: a
+// receive buffer below the loopback MSS only produces delayed-ACK stalls).
+func (e *end) makeSlow() { e.slow = true }
 
 func (e *end) closeFull() {
 	e.closeMu.Lock()
@@ -634,6 +706,9 @@ func (w *world) serveTarget(conn net.Conn) {
 	if c.CloseMode == "unread" && c.Closer == "target" {
 		e.stopAt = int64(c.StopAfter) + 1
 	}
+	if c.SlowReader && c.Closer == "target" {
+		e.makeSlow()
+	}
 	if c.Route == "downstream" {
 		// act as the downstream proxy first: consume the forwarded CONNECT head
 		h, err := tunx.ReadHead(br)
@@ -726,6 +801,13 @@ func splitPoints(c tcase, head string, rng *rand.Rand) []int {
 }
 
 func runTunnel(r *vh.Run, c tcase, budget *tunx.Budget) {
+	t0 := time.Now()
+	defer func() {
+		if d := time.Since(t0); d > 2*time.Second {
+			fmt.Printf("SLOW %s case %d (%s %s %s/%s) took %.1fs\n", c.Stream, c.Idx, c.Transport, c.Closer, c.CloseMode, c.CloseAt, d.Seconds())
+			r.Count("cases_slower_than_2s", 1)
+		}
+	}()
 	if hs := tunx.Handlers(); len(hs) != 0 || len(vh.MartianGoroutines()) != 0 {
 		// leftovers of the previous case would blur the census
 		vh.Await(func() bool { return len(vh.MartianGoroutines()) == 0 }, vh.AwaitOpts{})
@@ -817,6 +899,9 @@ func runTunnel(r *vh.Run, c tcase, budget *tunx.Budget) {
 	if c.CloseMode == "unread" && c.Closer == "client" {
 		cl.stopAt = int64(c.StopAfter) + 1
 	}
+	if c.SlowReader && c.Closer == "client" {
+		cl.makeSlow()
+	}
 	w.client = cl
 
 	var headSeen int32
@@ -840,6 +925,13 @@ func runTunnel(r *vh.Run, c tcase, budget *tunx.Budget) {
 	earlyDone := make(chan struct{})
 	go func() {
 		defer close(earlyDone)
+		if c.CloseAt == "with-head" {
+			// the client's end-of-stream travels right behind the CONNECT head
+			defer func() {
+				cl.closeHalf()
+				atomic.AddInt64(&w.events, 1)
+			}()
+		}
 		msg := make([]byte, len(head)+c.Early)
 		copy(msg, head)
 		vh.StampInto(msg[len(head):], cl.sendID, 0)
@@ -1047,6 +1139,8 @@ func runTunnel(r *vh.Run, c tcase, budget *tunx.Budget) {
 	bDoneAtClose := atomic.LoadInt32(&B.sendDone) == 1
 	timing := "during"
 	switch {
+	case c.CloseAt == "with-head":
+		timing = "with-head"
 	case c.CloseAt == "before":
 		timing = "before"
 	case bDoneAtClose && A.Recv() == bAtClose:
@@ -1054,12 +1148,13 @@ func runTunnel(r *vh.Run, c tcase, budget *tunx.Budget) {
 	case bDoneAtClose && c.CloseMode == "unread":
 		timing = "after, with the end of it unread by the closer"
 	}
-	switch c.CloseMode {
-	case "half":
+	switch {
+	case c.CloseAt == "with-head": // already half-closed behind the head
+	case c.CloseMode == "half":
 		if err := A.closeHalf(); err != nil {
 			A.closeFull()
 		}
-	case "linger0":
+	case c.CloseMode == "linger0":
 		A.closeAbort()
 	default: // full, unread (plain close; with unread input the kernel resets)
 		A.closeFull()
@@ -1116,6 +1211,14 @@ func runTunnel(r *vh.Run, c tcase, budget *tunx.Budget) {
 		return true
 	}
 	relOK := w.await(sigRel, "both ends have closed but the proxy has not released the tunnel at quiescence (handler goroutines / proxy-side connections remain)", released)
+
+	// an end that only half-closed kept reading: when the peer in turn finishes
+	// sending and closes in an orderly way, that end must have received all of
+	// the peer's bytes by the time it observes end-of-stream
+	if c.CloseMode == "half" && sawEOS && !stalled && A.Term() != 0 && B.werr.Load() == nil && A.Recv() != bFinal {
+		wit := w.state()
+		r.ViolationCase(c, "C04:bytes-before-eof:"+dirBA, fmt.Sprintf("%s had half-closed and kept reading; the peer then sent %d bytes and closed, but end-of-stream (term=%d) was observed after %d of them", c.Closer, bFinal, A.Term(), A.Recv()), wit)
+	}
 
 	// --- phase 8: content
 	if m, _ := cl.mis.Load().(*mismatch); m != nil {
@@ -1357,6 +1460,13 @@ func run(r *vh.Run, batch string) {
 	kind := batch[:i]
 	k, _ := strconv.Atoi(batch[i+1:])
 	budget := tunx.NewBudget(1)
+	if kind == "aged" {
+		idle := r.Pick(12, 35)
+		c := genAged(r, "c04-aged", k, []string{"pipe", "tcp", "pipe"}[k], []string{"downstream", "downstream", "direct"}[k], idle)
+		r.Case(c)
+		runSwarm(r, c, budget)
+		return
+	}
 	var n int
 	race := false
 	switch kind {
@@ -1389,12 +1499,7 @@ func run(r *vh.Run, batch string) {
 		}
 		c := gen(r, "c04-"+kind, g, tr, race)
 		r.Case(c)
-		t0 := time.Now()
 		runTunnel(r, c, budget)
-		if d := time.Since(t0); d > 2*time.Second {
-			fmt.Printf("SLOW case %d took %.1fs\n", g, d.Seconds())
-			r.Count("cases_slower_than_2s", 1)
-		}
 	}
 	// abortive closes (loopback TCP)
 	na := 0
@@ -1406,6 +1511,31 @@ func run(r *vh.Run, batch string) {
 	}
 	for j := 0; j < na; j++ {
 		c := genAbort(r, "c04-abort-"+kind, k*na+j, race)
+		r.Case(c)
+		runTunnel(r, c, budget)
+	}
+	// upload to an end that half-closed first and reads slowly (loopback TCP);
+	// client that half-closes right behind the CONNECT head
+	nh, ne := 0, 0
+	switch kind {
+	case "tcp":
+		nh, ne = r.Pick(8, 24), r.Pick(6, 20)
+	case "pipe":
+		ne = r.Pick(6, 20)
+	case "race":
+		nh, ne = 2, 4
+	}
+	for j := 0; j < nh; j++ {
+		c := genHalfUpload(r, "c04-halfup-"+kind, k*nh+j, "tcp", race)
+		r.Case(c)
+		runTunnel(r, c, budget)
+	}
+	for j := 0; j < ne; j++ {
+		tr := kind
+		if kind == "race" {
+			tr = []string{"pipe", "tcp"}[j%2]
+		}
+		c := genEarlyHalf(r, "c04-earlyhalf-"+kind, k*ne+j, tr, race)
 		r.Case(c)
 		runTunnel(r, c, budget)
 	}
